@@ -51,6 +51,10 @@ func genEmuConfig(r *rand.Rand) procdrv.EmuConfig {
 		z := pick(r, "0", "00", "000", "9", "09")
 		head = z + head[len(z):]
 	}
+	if hn := c.MCC + c.MNC; r.Intn(6) == 0 && len(head) >= len(hn) { // the digits of the home network once more, inside the MSIN
+		at := r.Intn(len(head) - len(hn) + 1)
+		head = head[:at] + hn + head[at+len(hn):]
+	}
 	c.IMSI = c.MCC + c.MNC + head + fmt.Sprintf("%04d", tail)
 	k, op := rbytes(r, 16), rbytes(r, 16)
 	c.K = hexs(k)
